@@ -501,3 +501,98 @@ Qed.
 Lemma link_picks p fuel : (plen (convp p) + 2 <= fuel)%nat ->
   drain_picks fuel (CharPartition_picks p) = Some (ppicks (convp p)).
 Proof. intros Hf. unfold CharPartition_picks, ppicks. rewrite (drain_picks_from p (plen (convp p)) 0 fuel); [reflexivity | lia | lia]. Qed.
+
+(* ---- CharPartition::try_from_iter: stable sort by start, then one scan ---- *)
+Definition valid_end (c : CharSet) : Prop := CharSet_end c <= MAX_CHAR.
+
+Lemma link_insert x l :
+  map conv (insert_by_key_N (fun c => CharSet_start c) x l) = insert_by_start (conv x) (map conv l).
+Proof.
+  induction l as [|y l IH]; [reflexivity|].
+  cbn [insert_by_key_N insert_by_start map]. cbn [conv fst].
+  destruct (CharSet_start x <=? CharSet_start y); cbn [map]; [reflexivity|]. rewrite IH. reflexivity.
+Qed.
+Lemma link_sort l : map conv (sort_by_key_N (fun c => CharSet_start c) l) = sort_by_start (map conv l).
+Proof.
+  unfold sort_by_key_N, sort_by_start. induction l as [|x l IH]; [reflexivity|].
+  cbn [fold_right map]. rewrite link_insert, IH. reflexivity.
+Qed.
+Lemma insert_valid x l : valid_end x -> Forall valid_end l ->
+  Forall valid_end (insert_by_key_N (fun c => CharSet_start c) x l).
+Proof.
+  intros Hx Hl. induction Hl as [|y l Hy Hl IH]; cbn [insert_by_key_N]; [repeat constructor; auto|].
+  destruct (_ <=? _); repeat constructor; auto.
+Qed.
+Lemma sort_valid l : Forall valid_end l -> Forall valid_end (sort_by_key_N (fun c => CharSet_start c) l).
+Proof.
+  unfold sort_by_key_N. induction 1 as [|x l Hx Hl IH]; cbn [fold_right]; [constructor|].
+  apply insert_valid; auto.
+Qed.
+
+Definition scan_res (r : option (loopres (result CharPartition Error) (N * CharSet))) : option (option N) :=
+  match r with
+  | Some (LoopDone (w, _)) => Some (Some w)
+  | Some (LoopReturn (Err Error_NonDisjointCharSets)) => Some None
+  | _ => None
+  end.
+
+Ltac scan_tac loop :=
+  let l := fresh "l" in let c := fresh "c" in let Hc := fresh "Hc" in let Hl := fresh "Hl" in
+  let IH := fresh "IH" in let w := fresh "w" in let prev := fresh "prev" in
+  intros l; induction l as [|c l IH]; intros w prev Hl; [reflexivity|];
+  inversion Hl as [|? ? Hc Hl']; subst;
+  cbn [loop scan_sorted map]; cbn [conv fst snd];
+  unfold valid_end, MAX_CHAR in Hc;
+  destruct (CharSet_start c <=? CharSet_end prev); [reflexivity|];
+  destruct (CharSet_start c <=? w);
+  [ cbv [u32_add U32MAX bind]; destruct (CharSet_end c + 1 <=? 4294967295) eqn:?; [|exfalso; lia] | ];
+  rewrite IH by assumption; reflexivity.
+
+Lemma link_scan1 : forall l w prev, Forall valid_end l ->
+  scan_res (CharPartition_try_from_iter_loop1 l w prev) = Some (scan_sorted (conv prev) w (map conv l)).
+Proof. scan_tac CharPartition_try_from_iter_loop1. Qed.
+Lemma link_scan2 : forall l w prev, Forall valid_end l ->
+  scan_res (CharPartition_try_from_iter_loop2 l w prev) = Some (scan_sorted (conv prev) w (map conv l)).
+Proof. scan_tac CharPartition_try_from_iter_loop2. Qed.
+
+Definition try_res (r : option (result CharPartition Error)) : option (option part) :=
+  match r with
+  | Some (Ok p) => Some (Some (convp p))
+  | Some (Err Error_NonDisjointCharSets) => Some None
+  | _ => None
+  end.
+
+(* on legal character sets try_from_iter never panics, fails only with NonDisjointCharSets, and is
+   the model's ptry_from_list *)
+Lemma link_try_from_iter l : Forall valid_end l ->
+  try_res (M_CharPartition_try_from_iter l) = Some (ptry_from_list (map conv l)).
+Proof.
+  intros Hl. unfold M_CharPartition_try_from_iter, CharPartition_try_from_iter, ptry_from_list.
+  destruct l as [|x0 l0]; [reflexivity|]. cbv [negb].
+  pose proof (sort_valid _ Hl) as Hs. rewrite <- link_sort.
+  destruct (sort_by_key_N (fun c => CharSet_start c) (x0 :: l0)) as [|c0 t] eqn:Es.
+  { exfalso. apply (f_equal (@length _)) in Es. revert Es. clear.
+    unfold sort_by_key_N. cbn [fold_right]. generalize (fold_right (insert_by_key_N (fun c => CharSet_start c)) [] l0).
+    intros l. destruct l; cbn [insert_by_key_N]; [discriminate|]. destruct (_ <=? _); discriminate. }
+  inversion Hs as [|? ? Hc0 Ht]; subst.
+  cbn [nth_error bind map length skipn Nat.leb]. cbn [conv fst snd].
+  unfold valid_end, MAX_CHAR in Hc0.
+  destruct (CharSet_start c0 <=? 0).
+  - cbv [u32_add U32MAX bind]. destruct (CharSet_end c0 + 1 <=? 4294967295) eqn:?; [|exfalso; lia].
+    pose proof (link_scan1 t (CharSet_end c0 + 1) c0 Ht) as H.
+    destruct (CharPartition_try_from_iter_loop1 t (CharSet_end c0 + 1) c0) as [[[p|[]]|[w pr]]|];
+      cbn [scan_res] in H; try discriminate; injection H as <-; reflexivity.
+  - pose proof (link_scan2 t 0 c0 Ht) as H. cbv [bind].
+    destruct (CharPartition_try_from_iter_loop2 t 0 c0) as [[[p|[]]|[w pr]]|];
+      cbn [scan_res] in H; try discriminate; injection H as <-; reflexivity.
+Qed.
+
+
+Lemma link_try_from_list l : Forall valid_end l ->
+  try_res (M_CharPartition_try_from_list l) = Some (ptry_from_list (map conv l)).
+Proof.
+  intros Hl. assert (E : M_CharPartition_try_from_list l = M_CharPartition_try_from_iter l).
+  { unfold M_CharPartition_try_from_list, CharPartition_try_from_list. cbv [bind].
+    destruct (M_CharPartition_try_from_iter l) as [[?|?]|]; reflexivity. }
+  rewrite E. apply link_try_from_iter. exact Hl.
+Qed.
